@@ -24,16 +24,113 @@ V_ENSURES(!__CPROVER_return_value || V_OLD(zck->error_state) == 0) /*@C03.comp_i
 /* decoder buffer invariant */
 #define DC_WF(c) ((c)->dc_data_loc <= (c)->dc_data_size && ((c)->dc_data == NULL ? (c)->dc_data_size == 0 : __CPROVER_rw_ok((c)->dc_data, (c)->dc_data_size)))
 
+#define DATA_WF(c) ((c)->data == NULL ? (c)->data_size == 0 : __CPROVER_rw_ok((c)->data, (c)->data_size))
+
 /* assumed contract of a codec's end-of-chunk hook (zstd: proved against this in units/zstd.c with
  * the ZSTD_* calls by contract; nocomp: units/nocomp.c).  It may append decoded bytes to dc_data. */
 bool verif_end_dchunk(zckCtx *zck, zckComp *comp, const bool use_dict, const size_t fd_size)
 V_REQUIRES(__CPROVER_rw_ok(zck, sizeof(*zck)) && comp == &zck->comp)
+V_REQUIRES(DC_WF(comp) && DATA_WF(comp))
 V_ASSIGNS(zck->comp.data, zck->comp.data_size, zck->comp.dc_data, zck->comp.dc_data_size, zck->comp.dc_data_loc, zck->error_state)
-/* (the stand-in does not free the old buffers: a leak in the model only; the real hooks' own units check their frees) */
-V_ENSURES(zck->comp.dc_data == NULL || __CPROVER_is_fresh(zck->comp.dc_data, zck->comp.dc_data_size))
-V_ENSURES(zck->comp.dc_data != NULL || zck->comp.dc_data_size == 0)
-V_ENSURES(zck->comp.dc_data_loc <= zck->comp.dc_data_size)
-V_ENSURES(__CPROVER_return_value || V_OLD(zck->error_state) > 0 || zck->error_state >= 0)
+V_FREES_CALLEE(zck->comp.data, zck->comp.dc_data)
+/* uncompressed codec: nothing to do at the end of a chunk */
+V_ENSURES(zck->comp.type == ZCK_COMP_ZSTD || (zck->comp.data == V_OLD(zck->comp.data) && zck->comp.data_size == V_OLD(zck->comp.data_size) && zck->comp.dc_data == V_OLD(zck->comp.dc_data) && zck->comp.dc_data_size == V_OLD(zck->comp.dc_data_size) && zck->comp.dc_data_loc == V_OLD(zck->comp.dc_data_loc) && zck->error_state == V_OLD(zck->error_state) && __CPROVER_return_value == (zck->error_state == 0)))
+/* zstd: the buffered stored bytes are consumed; on success exactly fd_size decoded bytes are appended to the unread decoded bytes */
+V_ENSURES(zck->comp.type != ZCK_COMP_ZSTD || V_OLD(zck->error_state) > 0 || (zck->comp.data == NULL && zck->comp.data_size == 0))
+V_ENSURES(zck->comp.type != ZCK_COMP_ZSTD || zck->comp.dc_data == V_OLD(zck->comp.dc_data) || zck->comp.dc_data == NULL || __CPROVER_is_fresh(zck->comp.dc_data, zck->comp.dc_data_size))
+V_ENSURES(zck->comp.type != ZCK_COMP_ZSTD || !__CPROVER_return_value || (V_OLD(zck->error_state) == 0 && zck->comp.dc_data != NULL && zck->comp.dc_data != V_OLD(zck->comp.dc_data) && zck->comp.dc_data_loc == 0 && zck->comp.dc_data_size == V_OLD(zck->comp.dc_data_size) - V_OLD(zck->comp.dc_data_loc) + fd_size && zck->comp.dc_data_size >= fd_size)) /*@C02.end_dchunk.appends_exactly_the_declared_size*/
+V_ENSURES(zck->comp.type != ZCK_COMP_ZSTD || __CPROVER_return_value || (zck->comp.dc_data == V_OLD(zck->comp.dc_data) && zck->comp.dc_data_size == V_OLD(zck->comp.dc_data_size) && zck->comp.dc_data_loc == V_OLD(zck->comp.dc_data_loc)))
+;
+
+
+/* ---- reader state invariant ------------------------------------------------------------------
+ * RD_WF(z): what holds between any two API calls on a context opened for reading, phrased over a
+ * chunk list of at most three entries (dictionary entry, one inner entry, last entry) — CBMC
+ * contracts cannot express the footprint "every node of an unbounded list"; units that use RD_WF
+ * are therefore labelled bounded in the list length (every loop is still closed by its contract,
+ * for every buffer and chunk size).
+ *  - compressed-side buffer `data` holds data_size bytes, all of them part of the data_loc bytes of
+ *    the current chunk consumed so far; data_loc never exceeds the chunk's stored size
+ *  - decoded-side buffer: DC_WF
+ *  - the running chunk hash (when watched by the ghost model) has been fed exactly data_loc bytes
+ *  - the file position is the next unread stored byte of the current chunk (C14/C09)            */
+#define CHUNK_WF1(z, c) (__CPROVER_rw_ok((c), sizeof(zckChunk)) && (c)->zck == (z) && (c)->digest_size == (z)->chunk_hash_type.digest_size && (c)->digest != NULL && __CPROVER_r_ok((c)->digest, (c)->digest_size))
+#define RD_N1(z) ((z)->index.first)
+#define RD_N2(z) ((z)->index.first->next)
+#define RD_N3(z) ((z)->index.first->next->next)
+#define RD_LIST_WF(z) (SPEC_HASH_VALID((z)->chunk_hash_type.type) && (z)->chunk_hash_type.digest_size == SPEC_DIGEST_SIZE((z)->chunk_hash_type.type) && \
+    RD_N1(z) != NULL && CHUNK_WF1(z, RD_N1(z)) && RD_N1(z)->start == 0 && \
+    (RD_N2(z) == NULL || (CHUNK_WF1(z, RD_N2(z)) && RD_N2(z)->start == RD_N1(z)->start + RD_N1(z)->comp_length && \
+     (RD_N3(z) == NULL || (CHUNK_WF1(z, RD_N3(z)) && RD_N3(z)->start == RD_N2(z)->start + RD_N2(z)->comp_length && RD_N3(z)->next == NULL)))))
+#define RD_IN_LIST(z, p) ((p) == NULL || (p) == RD_N1(z) || (RD_N2(z) != NULL && ((p) == RD_N2(z) || (RD_N3(z) != NULL && (p) == RD_N3(z)))))
+#define RD_HOOKS(z) ((z)->comp.decompress == verif_decompress && (z)->comp.end_dchunk == verif_end_dchunk && ((z)->comp.type == ZCK_COMP_NONE || (z)->comp.type == ZCK_COMP_ZSTD))
+#define RD_CUR(z) ((z)->comp.data_idx)
+#define RD_STATE_WF(z) (RD_IN_LIST(z, RD_CUR(z)) && DC_WF(&(z)->comp) && DATA_WF(&(z)->comp) && (z)->comp.data_size <= (z)->comp.data_loc && \
+    (RD_CUR(z) == NULL ? (z)->comp.data_loc == 0 : (z)->comp.data_loc <= RD_CUR(z)->comp_length) && \
+    CHUNK_HASH_WF(z) && HASH_OBJ_WF(&(z)->check_full_hash) && ((z)->check_full_hash.type == NULL || (z)->check_full_hash.type == &(z)->hash_type) && \
+    /* C02: bytes hashed into the running chunk hash == stored bytes of the chunk consumed so far */ \
+    (g_hu_hash != &(z)->check_chunk_hash || RD_CUR(z) == NULL || ((z)->check_chunk_hash.ctx != NULL ? g_hu_total == (z)->comp.data_loc : (z)->comp.data_loc == 0)) && \
+    /* C14/C09: the descriptor is positioned at the next unread stored byte of the current chunk */ \
+    (RD_CUR(z) == NULL ? ((z)->comp.data_eof != 0 || g_fpos[G_IX((z)->fd)] == (g_off_t)(z)->data_offset) \
+                       : g_fpos[G_IX((z)->fd)] == (g_off_t)(z)->data_offset + (g_off_t)RD_CUR(z)->start + (g_off_t)(z)->comp.data_loc))
+#define RD_WF(z) (RD_LIST_WF(z) && RD_HOOKS(z) && RD_STATE_WF(z))
+
+
+/* codec hook `decompress` (stand-in called through the function pointer; the real hooks are proved
+ * against this contract in units/codec.c): zstd buffers until the chunk ends (no-op), the
+ * uncompressed codec moves the compressed-side buffer to the decoded side */
+bool verif_decompress(zckCtx *zck, zckComp *comp, const bool use_dict)
+V_REQUIRES(__CPROVER_rw_ok(zck, sizeof(*zck)) && comp == &zck->comp)
+V_REQUIRES(DC_WF(comp) && DATA_WF(comp))
+V_ASSIGNS(zck->comp.data, zck->comp.data_size, zck->comp.dc_data, zck->comp.dc_data_size, zck->comp.dc_data_loc)
+V_FREES_CALLEE(zck->comp.data, zck->comp.dc_data)
+V_ENSURES(zck->comp.type != ZCK_COMP_ZSTD || (zck->comp.data == V_OLD(zck->comp.data) && zck->comp.data_size == V_OLD(zck->comp.data_size) && zck->comp.dc_data == V_OLD(zck->comp.dc_data) && zck->comp.dc_data_size == V_OLD(zck->comp.dc_data_size) && zck->comp.dc_data_loc == V_OLD(zck->comp.dc_data_loc))) /*@C15.decompress.unit_codec_releases_nothing_before_chunk_end*/
+V_ENSURES(zck->comp.type != ZCK_COMP_ZSTD || __CPROVER_return_value == (zck->error_state == 0))
+V_ENSURES(zck->comp.type == ZCK_COMP_ZSTD || zck->comp.dc_data == NULL || __CPROVER_is_fresh(zck->comp.dc_data, zck->comp.dc_data_size))
+V_ENSURES(zck->comp.type == ZCK_COMP_ZSTD || !__CPROVER_return_value || (zck->comp.data == NULL && zck->comp.data_size == 0 && zck->comp.dc_data != NULL && zck->comp.dc_data_loc == 0 && zck->comp.dc_data_size == V_OLD(zck->comp.dc_data_size) - V_OLD(zck->comp.dc_data_loc) + V_OLD(zck->comp.data_size) && zck->comp.dc_data_size >= V_OLD(zck->comp.data_size))) /*@C01,C02.decompress.stream_codec_moves_exactly_the_buffered_bytes*/
+V_ENSURES(zck->comp.type == ZCK_COMP_ZSTD || __CPROVER_return_value || zck->error_state > 0 || zck->comp.dc_data_loc <= zck->comp.dc_data_size)
+;
+
+static size_t comp_read_from_dc(zckCtx *zck, zckComp *comp, char *dst, size_t dst_size)
+V_REQUIRES(__CPROVER_rw_ok(zck, sizeof(*zck)) && comp == &zck->comp && DC_WF(comp))
+V_REQUIRES(dst == NULL || dst_size == 0 || __CPROVER_w_ok(dst, dst_size))
+V_ASSIGNS(zck->comp.dc_data_loc, zck->error_state; dst != NULL && dst_size > 0: __CPROVER_object_upto(dst, dst_size))
+V_ENSURES((V_OLD(zck->error_state) > 0 || dst == NULL) ? (__CPROVER_return_value == (size_t)-1 && zck->comp.dc_data_loc == V_OLD(zck->comp.dc_data_loc)) : (__CPROVER_return_value == (dst_size < (V_OLD(zck->comp.dc_data_size) - V_OLD(zck->comp.dc_data_loc)) ? dst_size : (V_OLD(zck->comp.dc_data_size) - V_OLD(zck->comp.dc_data_loc))) && zck->comp.dc_data_loc == V_OLD(zck->comp.dc_data_loc) + __CPROVER_return_value)) /*@C03,C02.comp_read_from_dc.hands_out_min_of_request_and_buffered*/
+V_ENSURES(V_OLD(zck->error_state) > 0 || dst == NULL || zck->error_state == V_OLD(zck->error_state))
+;
+
+static bool comp_add_to_data(zckCtx *zck, zckComp *comp, const char *src, size_t src_size)
+V_REQUIRES(__CPROVER_rw_ok(zck, sizeof(*zck)) && comp == &zck->comp && DATA_WF(comp))
+V_REQUIRES(src == NULL || src_size == 0 || __CPROVER_r_ok(src, src_size))
+V_ASSIGNS(zck->comp.data, zck->comp.data_size, zck->comp.data_loc, zck->error_state)
+V_FREES_CALLEE(zck->comp.data)
+V_ENSURES(!__CPROVER_return_value || (V_OLD(zck->error_state) == 0 && zck->error_state == 0 && src != NULL && zck->comp.data_size == V_OLD(zck->comp.data_size) + src_size && zck->comp.data_size >= src_size && zck->comp.data_size > 0 && zck->comp.data_loc == V_OLD(zck->comp.data_loc) + src_size)) /*@C02,C03.comp_add_to_data.appends_exactly_the_bytes_given*/
+V_ENSURES(!__CPROVER_return_value || __CPROVER_is_fresh(zck->comp.data, zck->comp.data_size)) /*@C03.comp_add_to_data.buffer_holds_data_size_bytes*/
+;
+
+bool import_dict(zckCtx *zck)
+V_REQUIRES(__CPROVER_rw_ok(zck, sizeof(*zck)) && RD_WF(zck))
+V_ASSIGNS(zck->comp, zck->check_chunk_hash.type, zck->check_chunk_hash.ctx, zck->error_state, g_hu_total, g_hu_seen, g_hu_ptr, g_hu_final, g_hu_inits, g_fin_val, g_fin_total, g_fin_seen, g_fin_ptr, g_fpos, g_rd_bytes, g_io_failed, g_last_read, g_watch_seen, g_watch_val; RD_N1(zck) != NULL: RD_N1(zck)->valid; RD_N1(zck) != NULL && RD_N2(zck) != NULL: RD_N2(zck)->valid; RD_N1(zck) != NULL && RD_N2(zck) != NULL && RD_N3(zck) != NULL: RD_N3(zck)->valid)
+V_ENSURES(!__CPROVER_return_value || (V_OLD(zck->error_state) == 0 && zck->error_state == 0)) /*@C12.import_dict.never_succeeds_with_an_error*/
+V_ENSURES(!__CPROVER_return_value || RD_N1(zck)->length == 0 || (zck->comp.dict != NULL && zck->comp.dict_size == RD_N1(zck)->length && zck->comp.started != 0)) /*@C14.import_dict.dictionary_loaded*/
+V_ENSURES(!__CPROVER_return_value || (RD_HOOKS(zck) && RD_STATE_WF(zck))) /*@C14.import_dict.keeps_reader_invariant*/
+V_ENSURES(!__CPROVER_return_value || g_hu_hash != &zck->check_full_hash || (g_hu_final == V_OLD(g_hu_final) && (zck->has_uncompressed_source != 0 || g_hu_total - V_OLD(g_hu_total) == g_rd_bytes[G_IX(zck->fd)] - V_OLD(g_rd_bytes[G_IX(zck->fd)])))) /*@C02.import_dict.every_byte_read_is_fed_to_the_data_checksum*/
+;
+
+/* comp_read: the reader's main loop.  Ghost accounting (C02): the whole-data hash is fed exactly the
+ * bytes read from the descriptor in this call (unless the file carries the uncompressed-source flag, for
+ * which the format defines no data checksum); the running chunk hash is fed exactly the stored bytes
+ * of the current chunk (part of RD_WF).  C15/C12: no success value once an error arose. */
+#define RD_VALID_TARGETS(zck) RD_N1(zck) != NULL: RD_N1(zck)->valid; RD_N1(zck) != NULL && RD_N2(zck) != NULL: RD_N2(zck)->valid; RD_N1(zck) != NULL && RD_N2(zck) != NULL && RD_N3(zck) != NULL: RD_N3(zck)->valid
+ssize_t comp_read(zckCtx *zck, char *dst, size_t dst_size, bool use_dict)
+V_REQUIRES(__CPROVER_rw_ok(zck, sizeof(*zck)) && RD_WF(zck))
+V_REQUIRES(dst == NULL || dst_size == 0 || __CPROVER_w_ok(dst, dst_size))
+V_ASSIGNS(zck->comp, zck->check_chunk_hash.type, zck->check_chunk_hash.ctx, zck->error_state, g_hu_total, g_hu_seen, g_hu_ptr, g_hu_final, g_hu_inits, g_fin_val, g_fin_total, g_fin_seen, g_fin_ptr, g_fpos, g_rd_bytes, g_io_failed, g_last_read, g_watch_seen, g_watch_val; dst != NULL && dst_size > 0: __CPROVER_object_upto(dst, dst_size); RD_VALID_TARGETS(zck))
+V_ENSURES(__CPROVER_return_value >= -2 && (__CPROVER_return_value < 0 || (size_t)__CPROVER_return_value <= dst_size)) /*@C03,C02.comp_read.never_more_than_asked*/
+V_ENSURES(__CPROVER_return_value < 0 || (V_OLD(zck->error_state) == 0 && zck->error_state == 0 && zck->mode == ZCK_MODE_READ)) /*@C15,C02,C12.comp_read.no_success_once_an_error_arose*/
+V_ENSURES(__CPROVER_return_value < 0 || (RD_HOOKS(zck) && RD_STATE_WF(zck))) /*@C02,C14,C03.comp_read.keeps_reader_invariant*/
+V_ENSURES(__CPROVER_return_value < 0 || g_hu_hash != &zck->check_full_hash || zck->has_uncompressed_source != 0 || g_hu_total - V_OLD(g_hu_total) == g_rd_bytes[G_IX(zck->fd)] - V_OLD(g_rd_bytes[G_IX(zck->fd)])) /*@C02.comp_read.every_byte_read_is_fed_to_the_data_checksum*/
+V_ENSURES(__CPROVER_return_value < 0 || g_hu_hash != &zck->check_full_hash || g_hu_final == V_OLD(g_hu_final)) /*@C02.comp_read.data_checksum_not_finalised_by_reads*/
 ;
 
 /* C15/C02: the end of a chunk is accepted (>= 1) only after the bytes fed to the chunk hash since its
@@ -44,15 +141,20 @@ static ssize_t comp_end_dchunk(zckCtx *zck, bool use_dict, size_t fd_size)
 V_REQUIRES(__CPROVER_rw_ok(zck, sizeof(*zck)))
 V_REQUIRES(zck->comp.data_idx != NULL && CHUNK_WF(zck->comp.data_idx) && zck->comp.data_idx->zck == zck)
 V_REQUIRES(zck->comp.data_idx->next == NULL || __CPROVER_rw_ok(zck->comp.data_idx->next, sizeof(zckChunk)))
-V_REQUIRES(CHUNK_HASH_WF(zck) && g_hu_hash == &zck->check_chunk_hash)
+V_REQUIRES(CHUNK_HASH_WF(zck))
+/* C02/C09: a chunk's end is processed only when exactly its stored size has been consumed and hashed */
+V_REQUIRES(zck->comp.data_loc == zck->comp.data_idx->comp_length) /*@C02.comp_end_dchunk.requires_whole_chunk_consumed*/
+V_REQUIRES(g_hu_hash != &zck->check_chunk_hash || zck->check_chunk_hash.ctx == NULL || g_hu_total == zck->comp.data_idx->comp_length)
 V_REQUIRES(zck->comp.end_dchunk == verif_end_dchunk)
 V_ASSIGNS(zck->comp.data, zck->comp.data_size, zck->comp.dc_data, zck->comp.dc_data_size, zck->comp.dc_data_loc, zck->comp.data_loc, zck->comp.data_idx, zck->comp.data_idx->valid, zck->check_chunk_hash.type, zck->check_chunk_hash.ctx, zck->error_state, g_hu_total, g_hu_seen, g_hu_ptr, g_hu_final, g_hu_inits, g_fin_val, g_fin_total, g_fin_seen, g_fin_ptr)
-V_FREES(zck->comp.dc_data, zck->check_chunk_hash.ctx)
-V_ENSURES(__CPROVER_return_value < 1 || (g_hu_final == V_OLD(g_hu_final) + 1 && g_fin_total == V_OLD(g_hu_total) && g_fin_seen == V_OLD(g_hu_seen))) /*@C15,C02.comp_end_dchunk.accepted_only_after_the_chunk_hash_was_finalised_over_all_its_bytes*/
-V_ENSURES(__CPROVER_return_value < 1 || V_OLD(zck->comp.data_idx)->comp_length == 0 || !(g_k1 < (size_t)V_OLD(zck->comp.data_idx)->digest_size) || g_fin_val == V_OLD(zck->comp.data_idx)->digest[g_k1]) /*@C15,C02.comp_end_dchunk.accepted_only_if_every_digest_byte_equal*/
+V_FREES_CALLEE(zck->comp.dc_data, zck->comp.data, zck->check_chunk_hash.ctx)
+V_ENSURES(__CPROVER_return_value < 1 || g_hu_hash != &zck->check_chunk_hash || (g_hu_final == V_OLD(g_hu_final) + 1 && g_fin_total == V_OLD(g_hu_total) && g_fin_seen == V_OLD(g_hu_seen))) /*@C15,C02.comp_end_dchunk.accepted_only_after_the_chunk_hash_was_finalised_over_all_its_bytes*/
+V_ENSURES(__CPROVER_return_value < 1 || g_hu_hash != &zck->check_chunk_hash || V_OLD(zck->comp.data_idx)->comp_length == 0 || !(g_k1 < (size_t)V_OLD(zck->comp.data_idx)->digest_size) || g_fin_val == V_OLD(zck->comp.data_idx)->digest[g_k1]) /*@C15,C02.comp_end_dchunk.accepted_only_if_every_digest_byte_equal*/
 V_ENSURES(__CPROVER_return_value >= 1 || zck->error_state == 2 || ((V_OLD(zck->error_state) > 0 || zck->mode != ZCK_MODE_READ) && zck->error_state > 0)) /*@C15,C02.comp_end_dchunk.rejected_chunk_leaves_sticky_error*/
 V_ENSURES(__CPROVER_return_value < 1 || (zck->comp.data_idx == V_OLD(zck->comp.data_idx)->next && zck->comp.data_loc == 0 && zck->check_chunk_hash.ctx != NULL && zck->check_chunk_hash.type == &zck->chunk_hash_type)) /*@C02,C14.comp_end_dchunk.advances_to_next_chunk_with_fresh_hash*/
 V_ENSURES(__CPROVER_return_value < 1 || V_OLD(zck->error_state) == 0) /*@C12.comp_end_dchunk.never_succeeds_on_a_context_in_error*/
 V_ENSURES(zck->comp.dc_data_loc <= zck->comp.dc_data_size) /*@C03.comp_end_dchunk.dc_buffer_cursor_inside*/
+V_ENSURES(__CPROVER_return_value < 1 || g_hu_hash != &zck->check_chunk_hash || g_hu_total == 0) /*@C02.comp_end_dchunk.next_chunk_starts_with_empty_hash*/
+V_ENSURES(__CPROVER_return_value < 1 || (DC_WF(&zck->comp) && DATA_WF(&zck->comp) && zck->comp.data_size == 0)) /*@C03.comp_end_dchunk.buffers_consistent*/
 ;
 #endif
